@@ -105,10 +105,37 @@ def grid_monitor(ctx, sc, out):
                 decode_failed_before = True
 
 
+def late_error_monitor(ctx, sc, out):
+    """a share-holding server answers one read late and with an error after the share's block was delivered"""
+    case = {"kind": "late-error", "sc": sc}
+    if out["upload"] != "ok":
+        ctx.count("late-error-upload-" + out["upload"])
+        return
+    ctx.case(json.dumps(sc))
+    res = out["result"]
+    ctx.count("late-error-read:" + res)
+    if out["silent_death"]:
+        # the error arrived while the share had no observer (after its block was delivered)
+        ctx.count("late-error:share-died-with-no-observer")
+        ctx.count("late-error:died-after-next-fetcher-was-built-then-used" if out["dead_get_block"]
+                  else "late-error:died-unobserved-never-used-again")
+    if out["death_with_observer"]:
+        ctx.count("late-error:share-died-with-observer")
+    if res == "stuck":
+        ctx.violation("read never completed although %d >= k=%d intact shares are on answering servers%s" %
+                      (len(out["good"]), sc["k"], " (get_block() was called on a share that had died unobserved)"
+                       if out["dead_get_block"] else ""), case,
+                      "stuck-get-block-on-dead-share" if out["dead_get_block"] else "enough-good-shares-read-stuck")
+    elif res != "ok":
+        ctx.violation("read returned %s although >= k intact shares are on answering servers" % res, case,
+                      "wrong-data" if res == "wrong-data" else "enough-good-shares-read-failed-" + res)
+
+
 def run(ctx):
     common.setup_impl_path()
     ncases, impl, lines = [], [], []
     scenarios = []
+    late = []
     if ctx.replay:
         c = ctx.replay.get("case") or ((ctx.replay.get("correspondence_disagreements") or [{}])[0].get("case")) or {}
         if c.get("kind") == "node":
@@ -124,6 +151,8 @@ def run(ctx):
                               else "request-never-retired")
         elif c.get("kind") == "grid":
             scenarios.append(c["sc"])
+        elif c.get("kind") == "late-error":
+            late.append(c["sc"])
     else:
         for (p, toks) in CORPUS:
             digs, info = fc.replay_node_script(p[0], p[1], p[2], toks)
@@ -153,6 +182,9 @@ def run(ctx):
                 node_monitor(ctx, p, toks, info)
         for i in range(ctx.budget(260, 6000)):
             scenarios.append(fc.gen_scenario(ctx.rng, want_crafted=(i % 3 == 0)))
+        late.append(fc.gen_late_error_scenario(None, canonical=True))      # corpus: minimised history
+        for i in range(ctx.budget(20, 350)):
+            late.append(fc.gen_late_error_scenario(ctx.rng))
     model = ctx.model(lines) if lines else None
     if model is not None:
         ctx.compare("DownloadNode script: calls, _segment_requests, _active_segment, retired requests and the active "
@@ -163,3 +195,10 @@ def run(ctx):
         out = fc.run_scenario(sc)
         grid_monitor(ctx, sc, out)
         ctx.sample({"scenario": sc, "outcome": out.get("groups")}, limit=8)
+    for sc in late:
+        out = fc.run_late_error(sc)
+        late_error_monitor(ctx, sc, out)
+        ctx.sample({"late-error": sc, "outcome": {k: out.get(k) for k in ("result", "roles", "silent_death", "dead_get_block")}},
+                   limit=9)
+    for k, v in fc.WAIT_STATS.items():
+        ctx.count("wait:" + k, v)
